@@ -14,6 +14,7 @@
 -/
 import EasyMl.Lemmas.TapeWorld
 import EasyMl.Props.C04
+import EasyMl.Lemmas.TapeSession
 
 namespace EasyMl.C15
 open EasyMl EasyMl.Spec
@@ -301,5 +302,81 @@ theorem cross_tape_rejected (a b : Rec R) (ta tb : Nat) (ha : a.history = some t
 
 example : (⟨2, some 0, 0⟩ : Rec R).history = some 0 ∧ (⟨3, some 1, 0⟩ : Rec R).history = some 1
     ∧ (0 : Nat) ≠ 1 := ⟨rfl, rfl, by decide⟩
+
+/-! ### every tape the public API can produce -/
+
+/-- **Every tape reachable by public operations is well formed**, so the correctness of the
+    reverse sweep (`sweep_correct`) needs no hypothesis on such tapes.  Start from any state in
+    which every tape is well formed — e.g. `World.empty`, no list created yet — and apply *any*
+    sequence of tape-changing public operations (`PubOp`: new variables, `unary` / `binary` with
+    arbitrary closures and hence every operator in every operand form, `Sum`, `reset`, `clear`,
+    `WengertList::clone`, on any tapes, in any order, with arbitrary records as operands,
+    including `same_list` panics and half-completed sums), provided each record operand points
+    inside its tape when it is used (`InRangeAll`).  Then every tape is well formed, and from
+    every position `y` of every tape the sweep does not panic, returns one adjoint per entry,
+    and `Σ_j adj[j]·seed j` is the tangent of entry `y` along `seed` for every direction `seed`.
+
+    The side condition is not about discipline: *stale* records (tape cleared, record not reset)
+    are allowed as soon as the tape has regrown past their position — the code appends, the tape
+    stays well formed, only the meaning of the derivative is lost.  It excludes exactly the use of
+    a record at or beyond the end of its tape, which `clear`'s documentation forbids ("you must
+    reset all the Records still using that list") and for which the statement is false: see the
+    `example` below.  `live_records` shows the side condition holds by itself for every record
+    an operation returned, until its tape is cleared or overwritten. -/
+theorem reachable_wf (ops : List (PubOp R)) (w0 : World R) (hw0 : ∀ h, Tape.WF (w0 h))
+    (hr : PubOp.InRangeAll ops w0) :
+    ∀ h, Tape.WF ((PubOp.run ops w0) h) ∧
+      ∀ y, y < ((PubOp.run ops w0) h).length →
+        ∃ adj, reverseSweep ((PubOp.run ops w0) h) y = .ok adj ∧
+          adj.length = ((PubOp.run ops w0) h).length ∧
+          ∀ seed : Nat → R, dotF adj seed = (tapeTan seed ((PubOp.run ops w0) h)).getD y 0 := by
+  intro h
+  have hwf := PubOp.run_wf ops w0 hw0 hr h
+  exact ⟨hwf, fun y hy => sweep_correct _ hwf y hy⟩
+
+-- a sequence with a cleared tape, a stale record used after the tape regrew, a reset, a clone
+example : PubOp.InRangeAll
+    ([.newVar 2 0, .newVar 3 0, .binary ⟨2, some 0, 0⟩ ⟨3, some 0, 1⟩ (· * ·) (fun _ y => y) (fun x _ => x),
+      .clear 0, .newVar 5 0, .unary ⟨2, some 0, 0⟩ (fun x => x) (fun _ => 1), .reset ⟨3, some 0, 1⟩,
+      .cloneTape 0 1, .sum [⟨3, some 0, 2⟩, Rec.constant 4]] : List (PubOp ℤ)) World.empty := by
+  simp [PubOp.InRangeAll, PubOp.InRange, PubOp.apply, Live, Rec.mkVar, Rec.binary, Rec.sameList,
+    Rec.pushBinary, Rec.pushUnary, Rec.unary, Rec.reset, Rec.constant, World.clear, World.update,
+    World.cloneTape, World.empty, Tape.appendNullary, Tape.appendUnary, Tape.appendBinary]
+
+-- the side condition cannot be dropped: a record used at the end of its cleared tape makes the
+-- code append an entry that is its own parent with a non-zero weight
+example : ¬ Tape.WF ((PubOp.run
+    ([.newVar 2 0, .clear 0, .unary ⟨2, some 0, 0⟩ (fun x => x) (fun _ => 1)] : List (PubOp ℤ))
+    World.empty) 0) := by
+  intro hwf
+  have := hwf 0 (by
+    simp [PubOp.run, PubOp.apply, Rec.mkVar, Rec.unary, Rec.pushUnary, World.clear, World.update,
+      World.empty, Tape.appendNullary, Tape.appendUnary])
+  simp [PubOp.run, PubOp.apply, Rec.mkVar, Rec.unary, Rec.pushUnary, World.clear, World.update,
+    World.empty, Tape.appendNullary, Tape.appendUnary] at this
+
+/-- **Records the API hands out point inside their tape, and keep doing so until the tape is
+    cleared.**  (a) The record returned by `variable`, `reset`, `unary`, `binary` (when it does
+    not panic) and `Sum` (when it does not panic) is live in the state the operation leaves, if
+    the operands were.  (b) Every operation other than `clear` and `WengertList::clone` only
+    makes tapes longer, so a live record stays live (`Live.mono`).  Hence the side condition of
+    `reachable_wf` holds for every record obtained from the API and used before the next
+    `clear` of its tape — and again after `reset`. -/
+theorem live_records (w : World R) (hw : ∀ h, Tape.WF (w h)) :
+    (∀ x h, Live (Rec.mkVar x h w).2 (Rec.mkVar x h w).1) ∧
+    (∀ r : Rec R, Live (r.reset w).2 (r.reset w).1) ∧
+    (∀ (a : Rec R) fx dfx, Live w a → Live (a.unary fx dfx w).2 (a.unary fx dfx w).1) ∧
+    (∀ (a b : Rec R) fxy dfx dfy r w', Live w a → Live w b →
+      a.binary b fxy dfx dfy w = .ok (r, w') → Live w' r) ∧
+    (∀ (items : List (Rec R)) r, (∀ x ∈ items, Live w x) → (Rec.sum items w).2 = .ok r →
+      Live (Rec.sum items w).1 r) ∧
+    (∀ (op : PubOp R), op.InRange w → (∀ h, op ≠ .clear h) → (∀ s d, op ≠ .cloneTape s d) →
+      ∀ r : Rec R, Live w r → Live (op.apply w) r) :=
+  ⟨fun x h => (mkVar_good x h w hw).2.2,
+   fun r => (reset_good r w hw).2.2,
+   fun a fx dfx ha => (unary_good a fx dfx w hw ha).2.2,
+   fun a b fxy dfx dfy r w' ha hb hrun => (binary_good a b fxy dfx dfy w w' r hw ha hb hrun).2.2,
+   fun items r hi hr => (sumLoop_good items _ w hw (Live.constant _ _) hi).2.2 r hr,
+   fun op hr hc hcl _ hl => Live.mono (PubOp.apply_grows op w hw hr hc hcl) hl⟩
 
 end EasyMl.C15
